@@ -193,6 +193,25 @@ pub fn run(tier: &str, seed: u64, em: &mut Emitter) {
         em.emit(if steps.len() == 1 { "sign-one" } else { "sign-sequence" }, case, out);
     }
 
+    // ---- size boundary: verify_json is documented as not size-limited (requests may exceed a PDU) ----
+    for sz in [65_534usize, 65_535, 65_536, 65_537, 100_000] {
+        let mut obj = CanonicalJsonObject::new();
+        obj.insert("pad".into(), CanonicalJsonValue::String(String::new()));
+        let base = serde_json::to_string(&obj).unwrap().len();
+        obj.insert("pad".into(), CanonicalJsonValue::String("x".repeat(sz - base)));
+        let log = RefCell::new(vec![]);
+        let kp = Recording { inner: keypair(0, "1"), idx: 0, log: &log };
+        let mut signed = obj.clone();
+        if sign_json("big.example", &kp, &mut signed).is_ok() {
+            let table: Vec<(Vec<u8>, Vec<u8>, Vec<u8>)> =
+                log.borrow().iter().map(|(k, m, s)| (keypair(*k, "x").public_key().to_vec(), m.clone(), s.clone())).collect();
+            let mut pk = Pk::new();
+            pk.entry("big.example".into()).or_default().insert("ed25519:1".into(), keypair(0, "1").public_key().to_vec());
+            let (case, out) = verify_case(&signed, &pk, &table, true);
+            em.emit("verify-large", case, out);
+        }
+    }
+
     // ---- verification ----
     for _ in 0..n {
         let base = gen_base(&mut r);
